@@ -3,7 +3,7 @@
 From Coq Require Import NArith List Lia ZArith Bool.
 Require Import SDS.Model.Mach SDS.Model.Bits SDS.Model.Raw SDS.Model.IntVec SDS.Model.BitVec SDS.Model.Sparse.
 Require Import SDS.Spec.BitSeq SDS.Spec.ValSeq SDS.Proofs.BitsProof SDS.Proofs.BVCommon SDS.Proofs.SparseSeq.
-Require Import SDS.Proofs.SparseProof SDS.Proofs.SparseBuild SDS.gen.Consts.
+Require Import SDS.Proofs.SparseProof SDS.Proofs.SparseBuild SDS.Proofs.SparseLow SDS.gen.Consts.
 Import ListNotations.
 Open Scope N_scope.
 Require Import ZifyBool ZifyN ZifyNat.
@@ -60,7 +60,7 @@ Proof.
 Qed.
 
 Theorem sparse_set_exact sp md w' n P :
-  high_contract sp md -> low_contract ->
+  high_contract sp md ->
   n < 2 ^ 64 -> 1 <= w' <= 63 -> increasing P = true -> all_below n P = true ->
   lenN P + buckets_of n (eff_width w' n (lenN P)) < 2 ^ 64 ->
   exists sv H,
@@ -69,7 +69,8 @@ Theorem sparse_set_exact sp md w' n P :
     present_queries_ok sp md sv n P /\
     zero_queries_ok sp md sv n P.
 Proof.
-  intros Hhc [R [Rnew [Rset Rget]]] Hn Hw' Hinc Hbel Hfit.
+  intros Hhc Hn Hw' Hinc Hbel Hfit.
+  destruct low_contract_holds as [R [Rnew [Rset Rget]]].
   destruct (build_set_ok sp md Hhc R Rnew Rset Rget w' n P Hn Hw' Hinc Hbel Hfit) as [sv [H [Hb Hok]]].
   exists sv, H. split; [exact Hb|]. split; [apply sv_ok_high; exact Hok|].
   split; [apply (sv_ok_present _ _ _ _ _ _ _ Hok)|].
@@ -77,7 +78,7 @@ Proof.
 Qed.
 
 Theorem sparse_multiset_exact sp md w' n Vs :
-  high_contract sp md -> low_contract ->
+  high_contract sp md ->
   n < 2 ^ 64 -> 1 <= w' <= 63 -> nondecreasing Vs = true -> all_below n Vs = true ->
   lenN Vs + buckets_of n (eff_width w' n (lenN Vs)) < 2 ^ 64 ->
   exists sv H,
@@ -85,21 +86,23 @@ Theorem sparse_multiset_exact sp md w' n Vs :
     high_code_ok sp md sv n (eff_width w' n (lenN Vs)) Vs H /\
     present_queries_ok sp md sv n Vs.
 Proof.
-  intros Hhc [R [Rnew [Rset Rget]]] Hn Hw' Hnd Hbel Hfit.
+  intros Hhc Hn Hw' Hnd Hbel Hfit.
+  destruct low_contract_holds as [R [Rnew [Rset Rget]]].
   destruct (build_multiset_ok sp md Hhc R Rnew Rset Rget w' n Vs Hn Hw' Hnd Hbel Hfit) as [sv [H [Hb Hok]]].
   exists sv, H. split; [exact Hb|]. split; [apply sv_ok_high; exact Hok|].
   apply (sv_ok_present _ _ _ _ _ _ _ Hok).
 Qed.
 
 Theorem sparse_try_from_iter_accepts sp md w' Vs :
-  high_contract sp md -> low_contract ->
+  high_contract sp md ->
   1 <= w' <= 63 -> nondecreasing Vs = true ->
   (forall v, last_opt Vs = Some v -> v + 1 < 2 ^ 64) ->
   let n := match last_opt Vs with Some v => v + 1 | None => 0 end in
   lenN Vs + buckets_of n (eff_width w' n (lenN Vs)) < 2 ^ 64 ->
   exists sv, sv_try_from_iter sp md w' Vs = Ok (inl sv) /\ present_queries_ok sp md sv n Vs.
 Proof.
-  intros Hhc [R [Rnew [Rset Rget]]] Hw' Hnd Hlast n Hfit.
+  intros Hhc Hw' Hnd Hlast n Hfit.
+  destruct low_contract_holds as [R [Rnew [Rset Rget]]].
   destruct (try_from_iter_ok sp md Hhc R Rnew Rset Rget w' Vs Hw' Hnd Hlast Hfit) as [sv [H [Hb Hok]]].
   exists sv. split; [exact Hb|]. apply (sv_ok_present _ _ _ _ _ _ _ Hok).
 Qed.
